@@ -380,6 +380,10 @@ func runC07(c *fw.Ctx) {
 			checkGradsClassified(k, ts, p, vals, root, nil, fmt.Sprintf("explicit Broadcast %v -> %v with %d consumers", sx, dst, uses))
 		})
 	}
+	// ---- a result of the expanded operand was made a leaf of its own (ResetGradContext(true)) before the graph was built ----
+	for i := 0; i < c.Pick(600, 20000); i++ {
+		c.Case(func(k *fw.K) { c07RearmedSibling(k) })
+	}
 	// ---- sampled pairs with sizes up to 7 ----
 	for i := 0; i < c.Pick(2000, 60000); i++ {
 		c.Case(func(k *fw.K) {
@@ -488,4 +492,72 @@ func c07TwoGraphs(k *fw.K) {
 			return
 		}
 	}
+}
+
+// c07RearmedSibling: h = f(x) is computed from the operand x that will be expanded, and is made a fresh tracked leaf
+// (ResetGradContext(true)) before anything uses it; x (expanded against w, implicitly or through Broadcast) and h (expanded
+// too) then feed one root. x receives the sum over the copies of its OWN path only - nothing that flows into h may reach it.
+func c07RearmedSibling(k *fw.K) {
+	r := k.Rng
+	dst := RandShape(r, 1, 3, 3)
+	srcs := BroadcastSources(dst)
+	sx := srcs[r.Intn(len(srcs))]
+	xv := Shuffled(r, Unique(r, sx, 0.2, 2.5))
+	x := rt.MustLeaf(xv, true)
+	f := []ref.Instr{{Op: "scale", F: 2}, {Op: "sin"}, {Op: "reshape", Shape: ref.CopyInts(sx)}, {Op: "pow", F: 2}, {Op: "scale", F: 1}}[r.Intn(5)]
+	hv, err := ref.Apply(f, []*ref.T{xv})
+	if err != nil {
+		k.Failf("harness: %v", err)
+		return
+	}
+	var h tensor.Tensor
+	if pn := call(func() { h, err = rt.Exec(f, []tensor.Tensor{x}) }); pn != nil || err != nil {
+		k.Failf("%s: panic=%v err=%v", f.Op, pn, err)
+		return
+	}
+	h.ResetGradContext(true)
+	wv, g := Shuffled(r, Unique(r, dst, 0.3, 2)), randG(k, dst)
+	p := ref.Prog{{Op: "leaf", Shape: sx, Data: xv.Data, Tracked: true}, {Op: "leaf", Shape: sx, Data: hv.Data, Tracked: true}, {Op: "leaf", Shape: dst, Data: wv.Data}}
+	explicit := r.Intn(2) == 0
+	if explicit {
+		p = append(p, ref.Instr{Op: "broadcast", In: []int{0}, Shape: dst}, ref.Instr{Op: "mul", In: []int{3, 2}})
+	} else {
+		p = append(p, ref.Instr{Op: "mul", In: []int{0, 2}})
+	}
+	y := len(p) - 1
+	p = append(p, ref.Instr{Op: []string{"add", "sub", "mul"}[r.Intn(3)], In: []int{y, 1}})
+	p = append(p, ref.Instr{Op: "leaf", Shape: dst, Data: g.Data}, ref.Instr{Op: "mul", In: []int{len(p) - 1, len(p)}})
+	root := len(p) - 1
+	vals, err := p.Eval()
+	if err != nil {
+		k.Failf("harness: %v", err)
+		return
+	}
+	k.Case = c01case{Family: "tensor 1 = " + f.Op + "(tensor 0), re-armed as a leaf before use; both expanded into one root", Prog: p, Roots: []int{root}}
+	if ref.Prod(dst) > ref.Prod(sx) {
+		k.Key("rearmed-sibling/%s/%s/%s/%v", f.Op, shapeKey(sx), shapeKey(dst), explicit)
+	}
+	k.Count("rearmed_sibling_cases", 1)
+	ts := make([]tensor.Tensor, len(p))
+	ts[0], ts[1] = x, h
+	if pn := call(func() {
+		for i := 2; i < len(p) && err == nil; i++ {
+			if p[i].Op == "leaf" {
+				ts[i] = rt.MustLeaf(vals[i], p[i].Tracked)
+				continue
+			}
+			xs := make([]tensor.Tensor, len(p[i].In))
+			for q, j := range p[i].In {
+				xs[q] = ts[j]
+			}
+			ts[i], err = rt.Exec(p[i], xs)
+		}
+		if err == nil {
+			err = tensor.BackPropagate(ts[root])
+		}
+	}); pn != nil || err != nil {
+		k.Failf("graph over an expanded operand and its re-armed result: panic=%v err=%v", pn, err)
+		return
+	}
+	checkGradsClassified(k, ts, p, vals, root, nil, fmt.Sprintf("operand %v expanded to %v next to its own result (%s) that was re-armed as a leaf before use", sx, dst, f.Op))
 }
